@@ -519,13 +519,16 @@ def read_union(
         )
         return (schema_name, result)
     elif return_record_name and extract_record_type(idx_schema) not in AVRO_TYPES:
-        # idx_schema is a named type
-        schema_name = (
-            named_schemas["reader"][idx_reader_schema]["name"]
+        # idx_schema is a reference by name: like an inline definition it is
+        # reported with its name only when it is a record
+        named_schema = (
+            named_schemas["reader"][idx_reader_schema]
             if idx_reader_schema
-            else named_schemas["writer"][idx_schema]["name"]
+            else named_schemas["writer"][idx_schema]
         )
-        return (schema_name, result)
+        if extract_record_type(named_schema) != "record":
+            return result
+        return (named_schema["name"], result)
     else:
         return result
 
